@@ -195,6 +195,7 @@ def spec_next():
         return None
 
     sp = FunctionSpec(PROP, F, 'SFilter.__next__', G, setup, post, raises=raises, invariants={1: inv}, theory=T,
+                      decode=lambda env, m, r: {'function': 'SFilter'},
                       lemmas=list(T.base_lemmas) + [app_lemma(allunsel(_FLT)), app_lemma(wf_items())])
     return sp
 
@@ -238,11 +239,99 @@ def spec_iter(reverse):
                         variant='reverse' if reverse else 'forward')
 
 
+# ---- Scheduler.process_transformation._get_definition_items -------------------------------------------------------
+SCHED = 'loki/batch/scheduler.py'
+DEFS = z3.Function('create_definition_items', V, VL)        # item.create_definition_items(...): ASSUMED a list of items
+_PI = z3.Bool('process_ignored_items')
+all_allowed = z3.RecFunction('all_allowed', VL, z3.BoolSort())    # no ignored item unless the manifest asks for them
+_sa = z3.Const('s!allowed', VL)
+define_rec(all_allowed, [_sa], z3.If(VL.is_nil(_sa), True,
+                                     z3.And(T.recog['is_C_ItemM'](VL.hd(_sa)),
+                                            z3.Or(_PI, z3.Not(A['ItemM__ignored'](VL.hd(_sa)))),
+                                            all_allowed(VL.tl(_sa)))))
+ITEM.methods['create_definition_items'] = lambda self, **kw: SSeq(T, DEFS(self.t), 'tuple')
+
+
+def spec_definition_items(file_graph):
+    from pyvc.containers import SSet
+    state = {}
+
+    class TrafoTok:
+        traverse_file_graph = file_graph
+        process_ignored_items = mk_bool(_PI)
+
+    class SelfTok:
+        item_factory = None
+        config = None
+
+    def rec_stub(item, sgraph_items):
+        """induction hypothesis for the recursive call: the definition items below `item`, all allowed"""
+        c = ctx()
+        if not file_graph:
+            return None
+        r = c.fresh(VL, 'child_items')
+        c.assume(all_allowed(r))
+        return SSeq(T, r, 'tuple')
+
+    def setup(spec):
+        c = ctx()
+        it = T.fresh_obj('item', 'ItemM')
+        c.assume(wf_items()(DEFS(it.t)))
+        sg = SSet.fresh('sgraph_items', T)
+        state['glob'].update({'transformation': TrafoTok, 'self': SelfTok, '_get_definition_items': rec_stub})
+        return (it, sg), {}, {'item': it}
+
+    def inv(L):
+        return {'only-allowed-items': all_allowed(T.lift_seq(L['items'])), 'rest-are-items': wf_items()(L['__rest'].t)}
+
+    def post(env, r):
+        if not file_graph:
+            return [('none-without-file-graph', z3.BoolVal(r is None))]
+        return [('only-allowed-items', all_allowed(T.lift_seq(r)))]
+
+    def app_l(f):
+        a, b = z3.Consts('a!al b!al', VL)
+        return z3.ForAll([a, b], f(T.app(a, b)) == z3.And(f(a), f(b)), patterns=[f(T.app(a, b))])
+    sp = FunctionSpec(PROP, SCHED, 'Scheduler.process_transformation._get_definition_items', {}, setup, post,
+                      invariants={1: inv} if file_graph else {}, theory=T,
+                      lemmas=list(T.base_lemmas) + [app_l(all_allowed), app_lemma(wf_items())],
+                      variant='file graph' if file_graph else 'item graph',
+                      decode=lambda env, m, r: {'function': '_get_definition_items'})
+
+    def fn_hook(fn, glob):
+        state['glob'] = fn.__globals__
+        return fn
+    sp.fn_hook = fn_hook
+    return sp
+
+
 def specs(tier='quick'):
     # Transformation.apply_file (plan mode mirrors transform mode; every procedure item of a file is handed its own
     # role and targets): the relational contract lives in contracts/C24.py and is an obligation of both properties
     from contracts import C24
-    return [spec_next(), spec_iter(False), spec_iter(True)] + C24.apply_file_specs(PROP)
+    return [spec_next(), spec_iter(False), spec_iter(True), spec_definition_items(True)] + C24.apply_file_specs(PROP)
+
+
+def bounded_checks(tier, seed):
+    """native scheduler harness (replay/C24.py replay_scheduler): a small project processed by probe transformations
+    for all 16 manifest/strategy combinations, checked against the graph's own item flags and edges; bounded"""
+    import json
+    import os
+    import subprocess
+    root = os.path.dirname(os.path.dirname(os.path.abspath(__file__)))
+    repo = os.environ.get('LOKI_REPO', '/repo')
+    p = subprocess.run([os.environ.get('LOKI_PYTHON', '/venv/bin/python'), os.path.join(root, 'replay', 'C24.py'),
+                        '--scheduler'], capture_output=True, text=True, timeout=1800,
+                       env=dict(os.environ, PYTHONPATH=repo), cwd=repo)
+    line = next((l for l in reversed(p.stdout.splitlines()) if l.startswith('{')), None)
+    rule = ('one 4-file project (an ignored routine sharing a file with an active one, a diamond of callers) x '
+            '{item graph, file graph} x {process_ignored_items} x {reverse} x {plan, default}: each selected item '
+            'exactly once, no other, role/targets of the item, callers before callees (reversed if asked)')
+    if line is None:
+        return [{'name': 'native/scheduler', 'cases': 0, 'violation': False, 'error': p.stderr[-600:], 'rule': rule}]
+    r = json.loads(line)
+    return [{'name': 'native/scheduler', 'cases': 16, 'distinct': 16, 'rule': rule, 'bound': 'one fixed project',
+             'violation': bool(r.get('reproduced')), 'cex': r}]
 
 
 def lemma_proofs():
@@ -258,21 +347,36 @@ def lemma_proofs():
         for tag, hyps, goal in (('base', [], stmt(VL.nil)), ('step', [stmt(r)], stmt(VL.cons(x, r)))):
             out.append((tag, str(check_retry(list(hyps) + [z3.Not(goal)], P_BIG))))
         return out
-    return T.base_lemma_proofs() + [('allunsel(app(a,b)) == allunsel(a) and allunsel(b)  (for arbitrary filter parameters)', lambda: prove('allunsel')),
+    def prove_allowed():
+        b = z3.Const('ind!b2', VL)
+        x, r = z3.Const('ind!x2', V), z3.Const('ind!r2', VL)
+        stmt = lambda a: all_allowed(T.app(a, b)) == z3.And(all_allowed(a), all_allowed(b))
+        return [(tag, str(check_retry(list(h) + [z3.Not(g)], P_BIG)))
+                for tag, h, g in (('base', [], stmt(VL.nil)), ('step', [stmt(r)], stmt(VL.cons(x, r))))]
+    return T.base_lemma_proofs() + [('all_allowed(app(a,b)) == all_allowed(a) and all_allowed(b)', prove_allowed),
+                                    ('allunsel(app(a,b)) == allunsel(a) and allunsel(b)  (for arbitrary filter parameters)', lambda: prove('allunsel')),
             ('all_items(app(a,b)) == all_items(a) and all_items(b)', lambda: prove('items'))]
 
 
 META = {
-    'category': 'proof',
-    'technique': 'contract-based deductive verification (pyvc): iterator with ghost cursor, loop invariant over the '
-                 'consumed prefix',
+    'category': 'other',
+    'technique': 'contract-based deductive verification (pyvc): iterator with ghost cursor and loop invariant; nested '
+                 'definition-item collector; relational plan/transform contract of apply_file; native scheduler harness '
+                 'as bounded stand-in and replay',
     'level_text': 'SFilter.__next__ (real source, walrus loop cut at the invariant "everything consumed so far is '
                   'unselected") is proved for all graphs, orders and filter settings to return the first selected element '
                   'at or after the cursor and to raise StopIteration iff none is left; SFilter.__iter__ positions the cursor '
-                  'at the start of the topological order or of its reverse. Hence the yielded sequence is filter(sel, order).',
-    'level_note': 'Trusted: pyvc engine; nx.topological_sort yields every node once, sources of edges first (ASSUMED, external); '
-                  'items are truthy objects; issubclass(type(node), item_filter) an arbitrary relation. Unverified and named: '
-                  'Scheduler.process_transformation dispatch loop, Item.targets, SGraph.as_filegraph, Transformation.apply*.',
+                  'at the start of the topological order or of its reverse; hence the yielded sequence is filter(sel, order). '
+                  'The nested _get_definition_items of Scheduler.process_transformation (loop invariant, recursive call = '
+                  'induction hypothesis) never returns an ignored item unless the manifest asks for ignored items. '
+                  'Transformation.apply_file hands every procedure item its own role and targets and issues the same calls in '
+                  'plan and in transform mode (relational, bounded to 2 definition items).',
+    'level_note': 'Level other: the dispatch loop of Scheduler.process_transformation (one apply() per yielded item with '
+                  'item.role / item.mode / item.targets), Item.targets, SGraph.as_filegraph and Transformation.apply / '
+                  'apply_subroutine / apply_module are covered only by the bounded native scheduler harness (one project, 16 '
+                  'manifest combinations), never counted as proved. Trusted: pyvc engine; nx.topological_sort yields every node '
+                  'once, sources of edges first (ASSUMED, external); items are truthy objects; issubclass(type(node), '
+                  'item_filter) an arbitrary relation; create_definition_items returns a list of items.',
     'trusted_base': ['pyvc engine', 'networkx.topological_sort (external)', 'python iterator protocol model (IterModel)'],
     'assumptions': ['items are truthy (the walrus loop `while node := next(...)` relies on it)', 'termination not proved'],
 }
